@@ -3,6 +3,7 @@ Line-protocol driver: one operation per input line, one canonical result line
 per operation.  Imports only core-Lean model files, so it links as a lean_exe.
 -/
 import Driver.PduOps
+import Driver.ScalarOps
 
 open Driver
 
@@ -12,7 +13,10 @@ def step (line : String) : String :=
   | op :: args =>
     match pduOp op args with
     | some r => r
-    | none => "bad-op"
+    | none =>
+      match scalarOp op args with
+      | some r => r
+      | none => "bad-op"
 
 partial def loop (h : IO.FS.Stream) (out : IO.FS.Stream) : IO Unit := do
   let line ← h.getLine
